@@ -244,6 +244,9 @@ class T:
         self.trusted = set()
         self.mode = None
         self.samples = []
+        self.merge_ifs = False
+        self.ieee_div = False  # model x/0 on symbolic reals as IEEE nan / inf (default: unspecified real, A-FP)
+        self.pure = set()
         self.finite = None  # set-level tasks: {"N": z3 Int, "replay": builder} enables candidate search + replay
 
     # ---- inputs ----------------------------------------------------------
@@ -273,6 +276,10 @@ class T:
         fref = extract.get_function(relpath, qualname)
         ex = Exec(self.ctx, contracts=self.contracts, hooks=self.hooks)
         ex.setmode = setmode
+        V.IEEE_DIV[0] = bool(self.ieee_div)
+        ex.merge_ifs = self.merge_ifs
+        self.ctx.prune = not self.merge_ifs
+        ex.pure = set(self.pure)
         st = State()
         st.pc = list(self.pre)
         st.frames.append(Frame(fref.module))
@@ -356,6 +363,13 @@ class T:
             gs.append(z3.Implies(p.cond(), g))
         goal = z3.And(*gs) if gs else z3.BoolVal(True)
         return self.prove(clause, goal, kind=kind, replay=replay or ("paths", paths))
+
+    def prove_each_path(self, clause, paths, goal_of, kind="ensures", replay=None, chunk=1):
+        """Like prove_paths but one obligation per path (or per chunk of paths): keeps each query small."""
+        res = []
+        for i in range(0, len(paths), chunk):
+            res.append(self.prove_paths("%s#path%d" % (clause, i // chunk), paths[i:i + chunk], goal_of, kind=kind, replay=replay))
+        return res
 
     def cover(self, clause, formulas, timeout_ms=None):
         """Vacuity guard: the formulas (with pre and facts) must be satisfiable."""
@@ -654,6 +668,7 @@ def relevant_facts(facts, seeds):
 
 def run_task(full_name, tier, timeout_ms):
     """Executed in a worker process. Returns a plain dict."""
+    V.IEEE_DIV[0] = False
     info = TASKS[full_name]
     t0 = time.time()
     t = T(info["prop"], info["name"], tier, timeout_ms)
